@@ -13,13 +13,20 @@ def cond_true(cond, mode, term, app):
     return cond.lower() == app
 
 
-def flatten(text, mode, term, app):
+STRICT_OK = {"emacs", "emacs-standard", "emacs-meta", "emacs-ctlx", "vi", "vi-move", "vi-command", "vi-insert"}
+
+
+def flatten(text, mode, term, app, files=None, strict=False, depth=0):
     """Reference evaluator of the block structure: keeps a leaf iff every enclosing
-    $if/$else block is active. Returns (flattened text, nested-in-inactive flag, max depth)."""
+    $if/$else block is active; an active $include is replaced by the flattened file,
+    bracketed by the keymap switches that reproduce the included parser's own keymap
+    scope. Returns (flattened text, nested-in-inactive flag, max depth)."""
+    files = files or {}
     sep = "\r\n" if "\r\n" in text else "\n"
     out, stack = [], []
     nested_inactive = False
     maxdepth = 0
+    keymap = "emacs"
     for ln in text.split(sep):
         s = ln.strip()
         if s.startswith("$if "):
@@ -34,6 +41,18 @@ def flatten(text, mode, term, app):
         elif s == "$endif":
             stack.pop()
         elif all(stack):
+            if s.startswith("$include ") and s[9:].strip() in files and depth < 3:
+                inner, ni, md = flatten(files[s[9:].strip()], mode, term, app, files, False, depth + 1)
+                nested_inactive = nested_inactive or ni
+                maxdepth = max(maxdepth, md)
+                out.append("set keymap emacs")
+                out += [x for x in inner.split("\n") if x != ""]
+                out.append("set keymap " + keymap)
+                continue
+            if s.startswith("set keymap "):
+                v = s[11:].split()[0] if s[11:].split() else ""
+                if not strict or v in STRICT_OK:
+                    keymap = v
             out.append(ln)
     return sep.join(out) + sep, nested_inactive, maxdepth
 
@@ -44,16 +63,20 @@ def check(rep, tier, seed):
         return
     info, broken = vlib.proof_step(rep, "C13")
     n = 2500 if tier == "quick" else 50000
-    files = [("inc1", 0, b"set from-inc 1\n\"\\C-i\": tab-insert\n"), ("inc2", 0, b"$if mode=vi\nset k 2\n$endif\nx: y\n"), ("nope", 1, b"")]
+    files = [("inc1", 0, b"set from-inc 1\n\"\\C-i\": tab-insert\nset keymap vi\nq: in-vi-map\n"),
+             ("inc2", 0, b"$if mode=vi\nset k 2\n$else\nset k 3\n$endif\nx: y\n$if term=xterm\nt: on-xterm\n$else\nt: not-xterm\n$endif\n$if Bash\nset a 1\n$endif\n"),
+             ("nope", 1, b"")]
+    fmap = {n: c.decode() for (n, k, c) in files if k == 0}
     cases, flat, meta = [], [], []
     for i in range(n):
         mode, term, app = rnd.choice(["emacs", "vi"]), rnd.choice(["xterm", "rxvt"]), rnd.choice(["bash", "usql"])
         prog = G.gen_program(rnd, files=[f[0] for f in files], max_stmts=rnd.choice([3, 5, 8]))
         vs = G.gen_initial_vars(rnd)
-        ftxt, nested, depth = flatten(prog, mode, term, app)
-        cases.append(G.parse_case(False, False, app, term, mode, vs, files, prog.encode()))
-        flat.append(G.parse_case(False, False, app, term, mode, vs, files, ftxt.encode()))
-        meta.append({"program": prog, "mode": mode, "term": term, "app": app, "nested_in_inactive": nested, "depth": depth,
+        strict = rnd.random() < 0.4
+        ftxt, nested, depth = flatten(prog, mode, term, app, fmap, strict)
+        cases.append(G.parse_case(False, strict, app, term, mode, vs, files, prog.encode()))
+        flat.append(G.parse_case(False, strict, app, term, mode, vs, [], ftxt.encode()))
+        meta.append({"program": prog, "mode": mode, "term": term, "app": app, "nested_in_inactive": nested, "depth": depth, "strict": strict,
                      "flattened": ftxt})
     got_i = vlib.impl(cases)
     got_f = vlib.impl(flat)
